@@ -288,13 +288,45 @@ EXTRA3 = {
     "C19": "(R8/R9) lazy tables: concatenation and __replace__ clauses of C05-R1 / C04-R6; no mutable default argument is stored or written.",
     "C20": "(R9) no mutable default argument is stored, returned or written; dataclasses.replace() is a shallow copy (its columns are still the argument's arrays).",
 }
+EXTRA4 = {
+    "C01": "the end-of-file terminator may be sampled from the whole last pending piece, whose whole length is then cut off again.",
+    "C02": "(R9+) the sign-less digit-matrix path of the buffer extractor is taken only where no field starts with a sign character the integer parser recognises.",
+    "C03": "(R6+) both kinds of stream are written piece by piece and at most EMPTY pieces are skipped.",
+    "C04": "(R10+, R14) stream pieces as C03-R6; index forwarding of the lazy selection.",
+    "C05": "",
+    "C06": "(R4+, R6+) decode of a non-ragged operand passes the codes un-flattened; equality of alphabet encodings compares ordered tables with the length guard the form of comparison needs.",
+    "C07": "",
+    "C08": "(R1+, R2+, R4+, R8) merge test in the padding-free form must use the running stop; a combined sort key needs a multiplier above every position; clip returns its input untouched only under "
+           "element-wise bounds against the row's own contig; geometry helpers use global coordinates.",
+    "C09": "(R3+, R7) the sum of a genome-wide array is the run-length array's own sum (no accumulator tied to the values' dtype); ignored contigs immutable, merge clauses of C08-R1.",
+    "C10": "(R10) sort keys of genomic intervals and locations (genome order).",
+    "C11": "",
+    "C12": "(R8, R9) groupby returns a partition of the chunk (row 0 to the last row; a one-row chunk is one group); a table handed to a MultiStream is wrapped unconditionally.",
+    "C13": "(R2+, R9, R10) digits of a k-mer code are extracted in integer arithmetic; counts are not written in place; PWM rows, letters and background come from the same key and an encoded "
+           "sequence is scored as it is only if its alphabet starts with the matrix alphabet in order.",
+    "C14": "",
+    "C15": "(R1+) the delivered-lines counter starts at 0 and is written only by the one increment.",
+    "C16": "",
+    "C17": "(R1+, R3+, R5, R6) every source of the record dict keys by the first word with the reader's roles; the .fai written is the complete index; fetched sequences are put back in the order "
+           "asked for; the chunk reader queues only the missing terminator at end of file.",
+    "C18": "(R8, R9) copy() copies; the digit fast path excludes every sign character.",
+    "C19": "(R2+, R10) a column's row generator iterates the column itself; equality of encodings (C06-R6).",
+    "C20": "(R10) the pass-through decision of as_encoded_array rests on a sound equality of encodings.",
+}
 for _k, _v in EXTRA3.items():
     EXTRA[_k] = EXTRA[_k] + " Third round: " + _v
+for _k, _v in EXTRA4.items():
+    if _v:
+        EXTRA[_k] = EXTRA[_k] + " Fourth round: " + _v
 for _k, _v in EXTRA.items():
     CLAIMS[_k]["text"] += " " + _v + (" (T1) In the functions of the property's anchor files no quantified test flipped between `all` and `any` on the same argument and no "
-                                       "parameter that was read is now ignored, relative to the instances confirmed on the reference tree.")
+                                       "parameter that was read is now ignored, relative to the instances confirmed on the reference tree. (T2) No mechanism function of the property (mechanism line "
+                                       "ranges of the property, functions carrying obligations of its rules, functions edited by confirmed seeded changes) differs from its confirmed form by a "
+                                       "small behaviour-changing edit (operator / bound / constant / name substitution, deleted statement, new early exit); larger rewrites are not comparable "
+                                       "and skipped. T1/T2 decide agreement with the confirmed reference, not the behaviour itself.")
 _NF = (" All rules read the source in a comparison normal form (bnpsa/normalize.py): early exits as if/else with un-negated tests, locals and comprehension variables renamed back to "
        "the reference vocabulary, freshly introduced temporaries inlined and inlined reference temporaries re-introduced - every step a semantics-preserving rewrite, so renaming, "
-       "temporaries and guard orientation do not change a verdict.")
+       "temporaries and guard orientation do not change a verdict; statements that differ from the reference only in spelling (message wording, comparison orientation, emptiness tests, "
+       "list/tuple literals, annotations) are read in the reference spelling (bnpsa/spelling.py).")
 for _k in CLAIMS:
     CLAIMS[_k]["note"] += _NF
